@@ -60,31 +60,25 @@ def _unq(s):
 
 
 # --------------------------------------------------------------------------------------
-# 0. finding F19 (write_stalled_after_peer_closed): the mechanism, deterministically
+# 0. finding F19 (write_stalled_after_peer_closed, repaired): its two deterministic reproductions stay in the check
 # --------------------------------------------------------------------------------------
 F19_SIG = "write_stalled_after_peer_closed"
 
 
-def f19_witness(work):
-    """The tunnel-level symptom of F19 needs a race (about 1 connection in 10 000).  Its mechanism is deterministic one
-    level down: a stream dropped after its own Finish while the peer is out of credit is never answered with Reset.
-    The schedule findings/F19/schedule.json is executed on the real penguin-mux (deterministic simulator); TLC must
-    accept the trace under the model of the code (MuxTrace.cfg) and find NoOrphanWriter violated on it
-    (MuxTrace_orphan.cfg); TLC must also reach the orphaned writer on the design (MC_Close_orphan).
-    Returns (present, details)."""
+def f19_mux(work):
+    """The mechanism of F19 one level down: a stream dropped after its own Finish while the peer is out of credit must be
+    answered with Reset.  findings/F19/schedule.json is executed on the real penguin-mux (deterministic simulator) and
+    TLC validates the trace against MuxTrace.tla (which demands the Reset and carries the invariant NoOrphanWriter).
+    Returns (accepted, details, trace lines)."""
     d = vlib.build_harness(["mux_sim"])
     sched = os.path.join(vlib.VERIF, "findings", "F19", "schedule.json")
     out = os.path.join(work, "f19.ndjson")
     rc, o = vlib.run([os.path.join(d, "mux_sim"), "script", sched, out], timeout=120)
     if rc != 0:
         raise ToolError("mux_sim failed on findings/F19/schedule.json: " + o[-500:])
-    conf = vlib.validate_once("MuxTrace", "MuxTrace", out)
-    orphan = vlib.validate_once("MuxTrace", "MuxTrace_orphan", out)
-    mc = vlib.model_check("MC_Mux", "MC_Close_orphan", workers=4, timeout=600, coverage=False)
-    present = (not orphan["accepted"]) and orphan.get("invariant") == "NoOrphanWriter"
-    det = dict(trace_conforms_to_model_of_code=conf["accepted"], real_code_trace_violates=orphan.get("invariant"),
-               design_reaches_orphaned_writer=mc["violated"] == "NoOrphanWriter", trace=out)
-    return present, det
+    r = vlib.validate_once("MuxTrace", "MuxTrace", out)
+    det = dict(accepted=r["accepted"], rejected_at_line=r.get("line"), invariant=r.get("invariant"))
+    return r["accepted"], det, open(out).readlines()
 
 
 F19_SCRIPT_ID = 9000001
@@ -694,12 +688,13 @@ def check(prop, tier, seed, replay):
         known = {k.get("sig"): k for k in vlib.load_known()
                  if k.get("property") == prop and k.get("status") == "open" and k.get("sig")}
         f19 = None
+        f19_mux_lines = None
         if not replay:
-            present, f19 = f19_witness(work)
-            log(f"[F19] mechanism of {F19_SIG} on the real penguin-mux (findings/F19/schedule.json): "
-                + ("present" if present else "NOT present") + " " + json.dumps({k: v for k, v in f19.items() if k != "trace"}))
-            if present:
-                f19["lines"] = open(f19["trace"]).readlines()
+            ok19, f19, lines19 = f19_mux(work)
+            log(f"[F19] findings/F19/schedule.json on the real penguin-mux (a stream dropped after its Finish while the peer is out "
+                f"of credit): " + ("accepted by TLC (the peer is told)" if ok19 else "REJECTED by TLC") + " " + json.dumps(f19))
+            if not ok19:
+                f19_mux_lines = lines19
             # ... and its symptom on the real tunnel
             f19_bad, f19_item, f19_sc = f19_tunnel(bin_path, work, seed)
             f19["tunnel_scenario"] = [sig for sig, _ in f19_bad] or ["accepted"]
@@ -740,16 +735,16 @@ def check(prop, tier, seed, replay):
             path = vlib.save_replay(prop, re.sub(r"[^A-Za-z0-9_]+", "_", sig), text, note="\n".join(note))
             violations.append((path, sig, len(its)))
             log("\n".join(note[:60]))
-        # the deterministic witness of F19 counts like an observation of its signature
-        if f19 is not None and "lines" in f19 and F19_SIG not in known_met:
+        # the mux-level reproduction of F19 counts like an observation of its signature
+        if f19_mux_lines is not None and F19_SIG not in known_met and not any(v[1] == F19_SIG for v in violations):
             if F19_SIG in known:
                 known_met.append(F19_SIG)
                 print(f"KNOWN-FINDING: property={prop} {known[F19_SIG]['what']}", flush=True)
             else:
-                path = vlib.save_replay(prop, F19_SIG + "_mux", f19["lines"],
-                                        note="findings/F19/schedule.json on the real penguin-mux: a writer out of credit whose peer "
-                                             "dropped the stream after its own Finish is never told (NoOrphanWriter, spec/PenguinMux.tla); "
-                                             "behind a bridge the local connection is left hanging")
+                path = vlib.save_replay(prop, F19_SIG + "_mux", f19_mux_lines,
+                                        note="findings/F19/schedule.json on the real penguin-mux is rejected by spec/MuxTrace.tla: a writer out "
+                                             "of credit whose peer dropped the stream after its own Finish is not told (Reset missing / "
+                                             "NoOrphanWriter); behind a bridge the local connection is left hanging")
                 violations.append((path, F19_SIG, 1))
         wall = time.time() - t0
         if not replay:
@@ -807,7 +802,7 @@ def check(prop, tier, seed, replay):
                                              for ep, evs in items[ln - 1]["eps"].items()})
                                   for ln, x in notes if x == n][:1] for n in sorted({x for _, x in notes})},
                 rejected_by_signature=rej_summary, known_findings_met=known_met,
-                f19_mechanism_witness={k: v for k, v in (f19 or {}).items() if k not in ("lines", "trace")}, exhaustive=False,
+                f19_reproductions=dict(f19 or {}), exhaustive=False,
                 explanation="TLC model-checks the oracle (spec/DirectConn.tla) on every pair of endpoint programs over an ideal "
                             "direct connection and over broken ones, and generates the scenario scripts (spec/MC_DirectConn.tla); "
                             "the driver plays each script on ONE real penguin client and ONE real penguin server connected over "
